@@ -1,3 +1,87 @@
 """Classifiers of recorded findings (KNOWN_FINDINGS.json -> "classifier").  Each takes the failure
 dict an oracle produced and says whether it is an instance of that recorded finding.  They are
 deliberately narrow: a different violation of the same property is still reported."""
+
+
+def F17b(f):
+    """Spark column names containing '.' make df.select(col) raise AnalysisException"""
+    return f.get("class", "").startswith("raises:AnalysisException") and any("." in c[0] for c in f.get("columns", []))
+
+
+# ---- C02 overlaps at String (inherent ambiguity of string encodings), each with the input class it is recorded for
+def _strings(f):
+    from . import streams
+    import warnings
+    with warnings.catch_warnings():
+        warnings.simplefilter("ignore")
+        s = streams.materialise({"recipe": f["recipe"]})
+    import pandas as pd
+    vals = [v for v in list(s) if isinstance(v, str)]
+    others = [v for v in list(s) if not isinstance(v, str) and not (pd.api.types.is_scalar(v) and pd.isna(v))]
+    return vals, others
+
+
+def _floatlike(v):
+    try:
+        float(v)
+        return True
+    except ValueError:
+        return False
+
+
+def _overlap(f, node, accepting, pred):
+    if f.get("node") != node or sorted(f.get("accepting", [])) != sorted(accepting):
+        return False
+    vals, others = _strings(f)
+    return bool(vals) and not others and all(pred(v) for v in vals)
+
+
+def F02a(f):
+    """String column whose every value is a float literal that passes visions' leading-zero rule (no
+    leading '0' on a value above 1) AND that pd.to_datetime accepts ('2020', '.5', '01')"""
+    def ok(v):
+        return _floatlike(v) and not (v[:1] == "0" and float(v) > 1)
+    return _overlap(f, "String", ["DateTime", "Float"], ok)
+
+
+def F02b(f):
+    """32 decimal digits: float-coercible and a UUID hex string"""
+    return _overlap(f, "String", ["Float", "UUID"], lambda v: len(v.strip()) == 32 and v.strip().isdigit())
+
+
+def F02c(f):
+    """'c://x/y': a Windows-absolute path and a URL with scheme and netloc"""
+    import re
+    return _overlap(f, "String", ["Path", "URL"], lambda v: re.match(r"^[A-Za-z]:[/\\]{2}[^/\\]", v) is not None)
+
+
+def F02d(f):
+    """'http://a@b/c': URL with userinfo; _to_email accepts any string with an @"""
+    return _overlap(f, "String", ["EmailAddress", "URL"], lambda v: "://" in v and "@" in v)
+
+
+def F02e(f):
+    """'/a@b': absolute path containing @"""
+    return _overlap(f, "String", ["EmailAddress", "Path"], lambda v: "@" in v and (v.startswith("/") or v[1:3] in (":\\", ":/")))
+
+
+def _only_known_overlaps(f):
+    """the input of f has overlaps, all of which are recorded C02 classes"""
+    from . import c02, streams
+    import warnings
+    with warnings.catch_warnings():
+        warnings.simplefilter("ignore")
+        s = streams.materialise({"recipe": f["recipe"]})
+        fs = c02.check_one(streams.shipped_typesets()["CompleteSet"], "CompleteSet", s, "pandas")
+    fs = [dict(x, recipe=f["recipe"]) for x in fs]
+    return bool(fs) and all(any(p(x) for p in (F02a, F02b, F02c, F02d, F02e)) for x in fs)
+
+
+def F02order(f):
+    """order dependence that is the consequence of a recorded overlap"""
+    return f.get("class") == "order-dependent" and _only_known_overlaps(f)
+
+
+def F15overlap(f):
+    """C15 is not claimed for inputs in a recorded C02 overlap class"""
+    return f.get("class") in ("detect-projection", "infer-prefix", "infer-stops-early") and _only_known_overlaps(f)
